@@ -40,6 +40,8 @@ FUNCS = ["exp", "log", "log10", "sqrt", "dexp", "abs"]
 SPECIES = {  # KROME idx token -> (alias suffix rule) expected alias
     "H": "HI", "D": "DI", "C": "CI", "O": "OI", "He": "HeI", "H2": "H2I", "CO": "COI", "H2O": "H2OI",
     "Hp": "HII", "Hm": "HM", "Cp": "CII", "H2p": "H2II", "Hep": "HeII", "Hepp": "HeIII", "E": "EM", "HD": "HDI",
+    # neutral species whose names end in letters that also spell a charge suffix in lower case (phosphorus: P; no 'p')
+    "CP": "CPI", "HCP": "HCPI", "PN": "PNI", "PH": "PHI", "CPp": "CPII",
 }
 NUMS = ["1.0d-10", "2.d0", "1d0", "3.0e2", "0.5", "7", "2", "1.5d-3", "6.9e-1", "3.92d-13", "0.6353d0", "100", "1e3", "2.5", "4.0d0"]
 
@@ -78,7 +80,7 @@ def _case(draw, depth):
         tree = ["neg", ["bin", "**", ["num", draw(st.sampled_from(NUMS))], tree]]
     case = {"kind": kind, "tree": tree, "sp": draw(st.sampled_from(["", "", " "])), "seedvals": draw(st.integers(0, 10 ** 6))}
     if kind == "near-miss":
-        case["miss"] = draw(st.sampled_from(["neg-var", "d-plus", "upper-D", "unbalanced", "risky-ident"]))
+        case["miss"] = draw(st.sampled_from(["neg-var", "neg-var-pow", "neg-var-pow", "d-plus", "upper-D", "unbalanced", "risky-ident"]))
     return case
 
 
@@ -307,6 +309,12 @@ def check_case(case, tier):
         miss = case["miss"]
         if miss == "neg-var":
             text2, tree2 = "-" + FT.render(["bin", "*", ["var", "Tgas"], tree], sp=case["sp"]), ["neg", ["bin", "*", ["var", "Tgas"], tree]]
+        elif miss == "neg-var-pow":
+            # Fortran: unary minus binds weaker than ** : -x**p is -(x**p), whatever x is (variable, call, parenthesis)
+            base = [["var", "Tgas"], ["fn", "sqrt", ["var", "T32"]], ["par", ["bin", "/", ["var", "Tgas"], ["num", "1d3"]]]][seed % 3]
+            expo = [["num", "2"], ["num", "0.5"], ["par", tree]][(seed // 3) % 3]
+            tree2 = ["neg", ["bin", "**", base, expo]]
+            text2 = "-" + FT.render(["bin", "**", base, expo], sp=case["sp"])
         elif miss == "d-plus":
             text2, tree2 = "1d+3*" + FT.render(tree, 2, "R", case["sp"]), ["bin", "*", ["num", "1e3"], tree]
         elif miss == "upper-D":
